@@ -37,6 +37,14 @@ for r in sorted(set(rnd(m) for m in rows)):
         out.append("Round 4 met the checker after the repairs of round 3, several of which had replaced a matcher by an analysis\n"
                    "(R03c on SSA, the containment engine of C17, the release-function idiom, path-by-path decisions). First time\n"
                    "below a quarter.\n")
+    elif r==5:
+        out.append("Round 5 was small and aimed: ten properties, two restructurings each, of exactly the functions that the rules\n"
+                   "written in the last hours inspect (R01i, R02h, R04i, R09e, R11g/R12f, R13f, R15j, R16i, R18g, R19g) — the agents\n"
+                   "were given function names, not rules. The three newest rules stayed silent; the alarms came from the round-4\n"
+                   "rules that were anchored on one function (the action literal, `NewRootMonitor`, a loop-carried flag) and, again,\n"
+                   "from older rules meeting a helper split (R09d polling loop in a helper, R15i lookup helper, R02b-post posting\n"
+                   "helper, R10a-dec guard at the call site, reviewed C06 entries two calls away). The rate is back above a third:\n"
+                   "a rule is only as general as the restructurings it has met.\n")
     out.append("\n| id | restructuring | alarms at first contact |\n|---|---|---|\n")
     for m in rs:
         a=', '.join(m.get('alarms_at_first_contact',[])) or '—'
